@@ -32,6 +32,14 @@
 **   chin     sentinel { prefix ; program }   (two programs one after the other in one try body)
 **   fresh    the program (with sentinel) as the first thing a new Cello Thread does
 **   nosent   the program WITHOUT sentinel in a forked child: exit status and stderr are judged
+**   deep     (mode=deep) dynamic nesting through recursion to depth D in {1,2,3,17,100,1000,MAX-2,MAX-1,MAX}
+**            (MAX = EXCEPTION_MAX_DEPTH read from the library's own Exception.c, D = number of try blocks
+**            open at once, no sentinel, so D = MAX is the last level the library documents as legal);
+**            every level has a non-matching filter except a target level (outermost / middle / innermost /
+**            none); A or B is thrown at the bottom; optionally the target handler throws the other object
+**            to an outer target (or to nobody).  Each case runs in a forked child; judged: which handlers
+**            ran, the bound object, len(current(Exception)) on entry, in the body, in the handler and after
+**            every construct that completes, exit status / diagnostic, and a following ordinary program.
 **
 ** Parameters: objs=types|struct|string|int (what is thrown: singleton types, or value objects
 **             caught through distinct-but-equal filter objects; see "Exception objects" below)
@@ -119,7 +127,13 @@ static void prog_init(struct prog* p) {
 /* ---- trace (shared memory so that a forked child can report it) ------------------- */
 
 struct ev { unsigned char kind; signed char a, b, depth; };
-struct shm { int ntr; struct ev tr[MAXEV]; };
+struct deep_h { int level, obj, depth; };
+struct deep_res {
+  int nh; struct deep_h h[8];             /* handler entries */
+  int bad, bad_where, bad_level, bad_seen;  /* first len(current(Exception)) mismatch: where = 'e'ntry 'b'ody e'x'it */
+  int exits, bottom_reached, bottom_depth, finished, final_depth, after_ran, after_ok;
+};
+struct shm { int ntr; struct ev tr[MAXEV]; struct deep_res deep; };
 static volatile struct shm* SH;
 static struct ev EX[MAXEV + 8]; static int nex;     /* expected trace */
 static int ref_decisions;                           /* catches that met a pending exception */
@@ -775,6 +789,181 @@ static void visit_fork(void) {
   track_depth();
 }
 
+/* ---- deep nesting ---------------------------------------------------------------------- */
+
+struct deep_case { int D, T1, T2, x, tf, rt; };   /* T = -1: nobody; x = thrown 1|2; tf: 0 catch-all at T1, 1 typed; rt: T1's handler throws the other object */
+static struct deep_case DC;
+#define DS (SH->deep)
+
+static void deep_bad(int where, int level, int seen) {
+  if (!DS.bad) { DS.bad = 1; DS.bad_where = where; DS.bad_level = level; DS.bad_seen = seen; }
+}
+
+static var deep_thrown(int id) { return id == 1 ? TA : TB; }
+static var deep_filter(int id) { return id == 1 ? FA : FB; }
+
+static void deep_rec(int level);
+
+#define DEEP_BODY \
+  { int d_ = (int)len(EXC); if (d_ != level + 1) deep_bad('b', level, d_); } \
+  if (level == DC.D - 1) { \
+    DS.bottom_reached = 1; DS.bottom_depth = (int)len(EXC); \
+    throw(deep_thrown(DC.x), "thrown at the bottom, %i try blocks open", $I(DC.D)); \
+  } else { deep_rec(level + 1); }
+
+#define DEEP_HAND \
+  if (DS.nh < 8) { DS.h[DS.nh].level = level; DS.h[DS.nh].obj = objid(e_); DS.h[DS.nh].depth = (int)len(EXC); } \
+  DS.nh++; \
+  if (level == DC.T1 && DC.rt) { throw(deep_thrown(3 - DC.x), "thrown by the handler of level %i", $I(level)); }
+
+/* one level: the parameter is never modified, so it may be read after the longjmp */
+static void deep_rec(int level) {
+  { int d_ = (int)len(EXC); if (d_ != level) deep_bad('e', level, d_); }
+  if (level == DC.T1 && DC.tf == 0) {
+    try { DEEP_BODY } catch (e_) { DEEP_HAND }
+  } else {
+    /* the matching object is listed second, behind one that never matches */
+    var fa_ = FN;
+    var fb_ = level == DC.T1 ? deep_filter(DC.x) : (level == DC.T2 && DC.rt) ? deep_filter(3 - DC.x) : FN;
+    try { DEEP_BODY } catch (e_ in fa_, fb_) { DEEP_HAND }
+  }
+  { int d_ = (int)len(EXC); if (d_ != level) deep_bad('x', level, d_); }
+  DS.exits++;
+}
+
+static int traces_equal(void) {
+  int nact = SH->ntr;
+  if (nact != nex || nact > MAXEV) return 0;
+  for (int i = 0; i < nex; i++) if (!ev_same(&EX[i], (const struct ev*)&SH->tr[i])) return 0;
+  return 1;
+}
+
+static void deep_child(void* arg) {
+  in_child = 1;
+  dup2(child_wfd, 2);
+  close(child_wfd);
+  EXC = current(Exception);
+  deep_rec(0);
+  DS.finished = 1;
+  DS.final_depth = (int)len(EXC);
+  /* an ordinary program afterwards: try { K0(); try { throw B } catch (e in A,N) { } } catch (e in N,B) { K2() }  throw A */
+  struct prog q; prog_init(&q);
+  q.depth = 2; q.b0[0] = 4; q.b0[1] = 2; q.F[1] = 1; q.F[0] = 2; q.h0[0] = 6; q.post = 1;
+  ref_sent(&q, NULL);
+  exec_sent(&q, NULL);
+  DS.after_ran = 1;
+  DS.after_ok = traces_equal();
+}
+
+static const char* deep_class(int D, char* buf, size_t n) {
+  int M = (int)EXCEPTION_MAX_DEPTH;
+  if (D == M) snprintf(buf, n, "MAX"); else if (D == M - 1) snprintf(buf, n, "MAX-1"); else if (D == M - 2) snprintf(buf, n, "MAX-2");
+  else snprintf(buf, n, "%d", D);
+  return buf;
+}
+
+static uint64_t deep_cases, deep_uncaught;
+
+static void deep_run(void) {
+  char cls[16], label[160], kase[128], what[256];
+  deep_class(DC.D, cls, sizeof cls);
+  snprintf(kase, sizeof kase, "deep:D=%d,T1=%d,T2=%d,x=%d,tf=%d,rt=%d", DC.D, DC.T1, DC.T2, DC.x, DC.tf, DC.rt);
+  vf_set_cur("%s", kase);
+  snprintf(what, sizeof what, "%d nested try blocks (recursion), all filters non-matching except level %d (%s)%s; throw %s at the bottom",
+    DC.D, DC.T1, DC.T1 < 0 ? "nobody" : DC.tf ? "typed" : "catch-all",
+    DC.rt ? (DC.T2 >= 0 ? ", whose handler throws the other object to level 0" : ", whose handler throws the other object to nobody") : "", objname(DC.x));
+  /* expectation */
+  int eh = 0, ehl[2], eho[2], final_obj = 0;     /* final_obj: escapes everything */
+  if (DC.T1 >= 0) { ehl[eh] = DC.T1; eho[eh] = DC.x; eh++;
+    if (DC.rt) { if (DC.T2 >= 0) { ehl[eh] = DC.T2; eho[eh] = 3 - DC.x; eh++; } else final_obj = 3 - DC.x; } }
+  else final_obj = DC.x;
+  int eexits = final_obj ? 0 : ehl[eh - 1] + 1;
+
+  int pfd[2];
+  if (pipe(pfd) != 0) { vf_note("pipe() failed"); vf.exhaustive = 0; return; }
+  child_wfd = pfd[1];
+  memset((void*)&DS, 0, sizeof DS);
+  SH->ntr = 0;
+  struct vf_child r = vf_fork_run(deep_child, NULL, 60);
+  close(pfd[1]);
+  char buf[2048]; size_t got = 0;
+  for (;;) { ssize_t k = read(pfd[0], buf + got, sizeof buf - 1 - got); if (k <= 0) break; got += (size_t)k; if (got >= sizeof buf - 1) break; }
+  close(pfd[0]); buf[got] = 0;
+  for (char* c = buf; *c; c++) if (*c == '\n' || *c == '\t') *c = ' ';
+  deep_cases++; vf.states++; vf.transitions++; vf.executions++; vf.nontrivial++;
+  if (final_obj) deep_uncaught++;
+  if ((uint64_t)DS.bottom_depth > vf.max_depth) vf.max_depth = (uint64_t)DS.bottom_depth;
+  if (vf.replay) {
+    printf("%s\nchild: exited=%d status=%d signaled=%d sig=%d; bottom reached=%d with len=%d; handlers:", what, r.exited, r.status, r.signaled, r.sig, DS.bottom_reached, DS.bottom_depth);
+    for (int i = 0; i < DS.nh && i < 8; i++) printf(" level %d bound %s at len %d;", DS.h[i].level, objname(DS.h[i].obj), DS.h[i].depth);
+    printf(" constructs completed=%d (expected %d), finished=%d final len=%d, following program ok=%d; stderr: %.300s\n", DS.exits, eexits, DS.finished, DS.final_depth, DS.after_ok, buf);
+  }
+#define DEEP_VIOL(sym, ...) do { snprintf(label, sizeof label, "exc/deep/depth=%s/%s", cls, sym); \
+    char det_[700]; snprintf(det_, sizeof det_, __VA_ARGS__); vf_violation(label, kase, "%s: %s (stderr: %.200s)", what, det_, buf); return; } while (0)
+  if (r.timed_out) DEEP_VIOL("hang", "child did not finish in 60 s");
+  if (r.signaled) {
+    if (r.sig == SIGABRT && strstr(buf, "Buffer Overflow")) DEEP_VIOL("aborted-exception-buffer-overflow", "the library aborted with 'Exception Buffer Overflow' although only %d try blocks were open (EXCEPTION_MAX_DEPTH = %d); the bottom was%s reached", DC.D, (int)EXCEPTION_MAX_DEPTH, DS.bottom_reached ? "" : " not");
+    DEEP_VIOL(r.sig == SIGABRT ? "aborted" : "crashed", "child killed by signal %d; bottom reached=%d", r.sig, DS.bottom_reached);
+  }
+  if (!DS.bottom_reached) DEEP_VIOL("bottom-not-reached", "the innermost body never ran (exit status %d)", r.status);
+  if (DS.bottom_depth != DC.D) DEEP_VIOL("nesting-depth-mismatch", "len(current(Exception)) = %d in the innermost body, expected %d", DS.bottom_depth, DC.D);
+  if (DS.bad) DEEP_VIOL(DS.bad_where == 'x' ? "nesting-depth-not-restored" : "nesting-depth-mismatch", "len(current(Exception)) = %d at level %d (%s), expected %d",
+    DS.bad_seen, DS.bad_level, DS.bad_where == 'e' ? "before its try" : DS.bad_where == 'b' ? "in its try body" : "after its construct", DS.bad_where == 'b' ? DS.bad_level + 1 : DS.bad_level);
+  for (int i = 0; i < DS.nh && i < 8; i++) {
+    if (i >= eh) DEEP_VIOL(DS.h[i].level == DS.h[i ? i - 1 : 0].level ? "handler-ran-twice" : "non-matching-handler-ran", "handler of level %d ran (bound %s) but should not", DS.h[i].level, objname(DS.h[i].obj));
+    if (DS.h[i].level != ehl[i]) DEEP_VIOL("wrong-handler-ran", "handler of level %d ran, expected the handler of level %d", DS.h[i].level, ehl[i]);
+    if (DS.h[i].obj != eho[i]) DEEP_VIOL(DS.h[i].obj >= 4 && DS.h[i].obj <= 6 ? "handler-bound-to-filter-object-not-the-thrown-object" : "handler-bound-wrong-object", "handler of level %d bound %s, thrown was %s", DS.h[i].level, objname(DS.h[i].obj), objname(eho[i]));
+    if (DS.h[i].depth != ehl[i]) DEEP_VIOL("nesting-depth-mismatch", "len(current(Exception)) = %d in the handler of level %d, expected %d", DS.h[i].depth, DS.h[i].level, ehl[i]);
+  }
+  if (DS.nh < eh) DEEP_VIOL("target-handler-did-not-run", "%d handler(s) ran, expected %d (level %d)", DS.nh, eh, ehl[DS.nh]);
+  if (final_obj) {
+    if (DS.finished) DEEP_VIOL("raised-exception-lost", "%s escapes every handler but the program ran to its end", objname(final_obj));
+    if (!r.exited || r.status == 0) DEEP_VIOL("uncaught/exit-status-zero", "%s escapes every handler, exit status %d", objname(final_obj), r.status);
+    if (!strstr(buf, "Uncaught")) DEEP_VIOL("uncaught/no-diagnostic", "%s escapes every handler, exit status %d, no 'Uncaught' on stderr", objname(final_obj), r.status);
+    return;
+  }
+  if (!DS.finished) DEEP_VIOL("terminated-after-handled-exception", "the exception was handled at level %d but the process ended (exit status %d) before the outermost construct completed", ehl[eh - 1], r.status);
+  if (DS.exits != eexits) DEEP_VIOL("wrong-number-of-constructs-completed", "%d constructs completed normally, expected %d", DS.exits, eexits);
+  if (DS.final_depth != 0) DEEP_VIOL("nesting-depth-not-restored", "len(current(Exception)) = %d after the outermost construct", DS.final_depth);
+  if (!DS.after_ran || !DS.after_ok) DEEP_VIOL("following-program-misbehaves", "an ordinary depth-2 program run afterwards %s", DS.after_ran ? "produced a trace different from the reference" : "did not complete");
+  if (r.status != 0) DEEP_VIOL("failure-status-without-exception", "exit status %d", r.status);
+  vf.executions++;          /* the following program */
+  if (vf_want_sample()) vf_sample("%s -> handler level %d bound %s, %d constructs completed, following program ok", kase, ehl[eh - 1], objname(eho[eh - 1]), DS.exits);
+#undef DEEP_VIOL
+}
+
+static void deep_all(void) {
+  int M = (int)EXCEPTION_MAX_DEPTH;
+  int cand[] = { 1, 2, 3, 17, 100, 1000, M - 2, M - 1, M };
+  long cap = vf_param_i("maxdepth", M);         /* never above MAX: MAX+1 aborts by design */
+  if (cap > M) cap = M;
+  int seen[16], ns = 0;
+  for (size_t c = 0; c < sizeof cand / sizeof cand[0]; c++) {
+    int D = cand[c];
+    if (D < 1 || D > cap) continue;
+    int dup = 0; for (int i = 0; i < ns; i++) if (seen[i] == D) dup = 1;
+    if (dup) continue;
+    seen[ns++] = D;
+    int tl[4] = { 0, D / 2, D - 1, -1 };
+    for (int ti = 0; ti < 4; ti++) {
+      int T1 = tl[ti], d2 = 0;
+      for (int tj = 0; tj < ti; tj++) if (tl[tj] == T1) d2 = 1;
+      if (d2) continue;
+      for (int x = 1; x <= 2; x++) for (int tf = 1; tf >= 0; tf--) for (int rt = 0; rt <= 2; rt++) {
+        if (T1 < 0 && (tf == 0 || rt)) continue;            /* nobody handles: one variant */
+        if (rt == 1 && T1 == 0) continue;                     /* no outer target above the outermost level */
+        DC.D = D; DC.T1 = T1; DC.x = x; DC.tf = tf; DC.rt = rt ? 1 : 0; DC.T2 = rt == 1 ? 0 : -1;
+        vf_watchdog(120);
+        deep_run();
+      }
+    }
+  }
+  vf_watchdog(0);
+  vf_extra("exception_max_depth", "%d", M);
+  vf_extra("deep_cases", "%" PRIu64, deep_cases);
+  vf_extra("deep_cases_expected_uncaught", "%" PRIu64, deep_uncaught);
+}
+
 /* ---- replay --------------------------------------------------------------------------- */
 
 static void show_both(void) {
@@ -784,6 +973,13 @@ static void show_both(void) {
 }
 
 static void do_replay(const char* c) {
+  if (strncmp(c, "deep:", 5) == 0) {
+    if (sscanf(c, "deep:D=%d,T1=%d,T2=%d,x=%d,tf=%d,rt=%d", &DC.D, &DC.T1, &DC.T2, &DC.x, &DC.tf, &DC.rt) != 6 ||
+        DC.D < 1 || DC.D > (int)EXCEPTION_MAX_DEPTH || DC.x < 1 || DC.x > 2) { fprintf(stderr, "replay: bad deep case '%s'\n", c); exit(2); }
+    deep_run();
+    printf(vf.nviols ? "replay: violation\n" : "replay: as expected\n");
+    vf_finish();
+  }
   char mode[16]; const char* colon = strchr(c, ':');
   if (!colon || colon - c >= (long)sizeof mode) { fprintf(stderr, "replay: bad case string '%s'\n", c); exit(2); }
   memcpy(mode, c, (size_t)(colon - c)); mode[colon - c] = 0;
@@ -826,6 +1022,8 @@ int main(int argc, char** argv) {
   }
 
   if (vf.replay) do_replay(vf.replay);
+
+  if (vf_param_is("mode", "deep", "enum")) { deep_all(); vf_finish(); }
 
   const char* k = vf_param("kind", "chain");
   p_kind = strcmp(k, "seq") == 0 ? K_SEQ : strcmp(k, "seqt") == 0 ? K_SEQT : K_CHAIN;
